@@ -317,7 +317,7 @@ func runRcptBehaviour(t *testing.T, b RBehaviour, out *bufio.Writer) {
 	cmdTimeout := 20 * time.Second
 	for _, tx := range b.Txns {
 		if tx.Plan.Late > 0 {
-			cmdTimeout = time.Second
+			cmdTimeout = 700 * time.Millisecond
 		}
 	}
 	var tgt module.DeliveryTarget
@@ -413,7 +413,7 @@ func runRcptBehaviour(t *testing.T, b RBehaviour, out *bufio.Writer) {
 		case "noopen", "readfail":
 			body = failingBuffer{mode: tx.Plan.Src, data: bytes.Repeat([]byte("0123456789abcdef0123456789abcde\r\n"), 64)}
 		case "reset": // large enough for the client to be still writing when the next hop resets
-			body = failingBuffer{mode: "ok", data: bytes.Repeat([]byte("0123456789abcdef0123456789abcde\r\n"), 256*1024)}
+			body = failingBuffer{mode: "ok", data: bytes.Repeat([]byte("0123456789abcdef0123456789abcde\r\n"), 32*1024)}
 		}
 		func() {
 			defer func() {
